@@ -457,8 +457,11 @@ def c20(chk):
         elif mode == 3:     # dt equal to the interval
             dt = rng.choice([0.5, 0.3, 1.7]); end = start + dt
         elif mode == 4:     # remainder just below / above the 1e-6 threshold
-            q = rng.randint(1, 50); dt = rng.choice([0.1, 0.5, 1.0])
-            end = start + q * dt + rng.choice([0.5e-6, 0.99e-6, 1.01e-6, 2e-6, -0.5e-6, -1.5e-6])
+            q = rng.randint(1, 50); dt = rng.choice([0.1, 0.5, 1.0, 2.5, 4.0, 8.0])
+            if rng.random() < 0.5:
+                start = rng.choice([0.0, -3.0, 12.5, 100.0])     # exactly representable: the remainder is not blurred by rounding
+            end = start + q * dt + rng.choice([0.5e-6, 0.99e-6, 1.01e-6, 2e-6, -0.5e-6, -1.5e-6,
+                                               -0.9e-6 * dt, -2e-6 * dt, 0.9e-6 * dt, -0.5e-6 * dt])
         else:
             end = start + rng.uniform(0.01, 20.0); dt = rng.uniform(1e-3, 3.0)
         if not (end >= start) or abs(start) > 1e6:
